@@ -19,6 +19,7 @@ import (
 	"os"
 	"path/filepath"
 	"strconv"
+	"sync"
 
 	"github.com/sharedcode/sop/fs"
 )
@@ -155,9 +156,10 @@ type behaviour struct {
 type run struct {
 	w      *world
 	actors map[string]*actor
-	ops    map[string]func(ctx context.Context) (string, int, string)
-	o      *out
+	events []event
 }
+
+func (r *run) emit(e event) { r.events = append(r.events, e) }
 
 func (r *run) actor(name string) *actor {
 	a := r.actors[name]
@@ -205,24 +207,24 @@ func (r *run) doStep(s step) bool {
 	case "adv":
 		ar, err := a.advance(cmd{kind: "go"}, r.opFor(s))
 		if err != nil {
-			r.o.emit(event{"ev": "Stuck", "actor": s.A, "why": err.Error()})
+			r.emit(event{"ev": "Stuck", "actor": s.A, "why": err.Error()})
 			return false
 		}
 		e := event{"ev": "Adv", "actor": s.A, "to": ar.gate, "res": ar.res, "val": ar.val, "img": s.Img, "err": ar.err}
 		r.obsInto(e)
-		r.o.emit(e)
+		r.emit(e)
 	case "crash":
 		var prior []byte
 		if s.PreAdv {
 			prior, _ = os.ReadFile(r.w.cowPath)
 			if _, err := a.advance(cmd{kind: "go"}, r.opFor(s)); err != nil {
-				r.o.emit(event{"ev": "Stuck", "actor": s.A, "why": err.Error()})
+				r.emit(event{"ev": "Stuck", "actor": s.A, "why": err.Error()})
 				return false
 			}
 		}
 		if s.Kind == "torn" {
 			if a.at != "pre_write" {
-				r.o.emit(event{"ev": "Stuck", "actor": s.A, "why": "torn crash requested but actor is at " + a.at})
+				r.emit(event{"ev": "Stuck", "actor": s.A, "why": "torn crash requested but actor is at " + a.at})
 				return false
 			}
 			a.cmdCh <- cmd{kind: "torn", p: s.P}
@@ -245,7 +247,7 @@ func (r *run) doStep(s step) bool {
 		}
 		e := event{"ev": "Crash", "actor": s.A, "kind": s.Kind, "p": s.P}
 		r.obsInto(e)
-		r.o.emit(e)
+		r.emit(e)
 	default:
 		fatal("bad step", s.C)
 	}
@@ -259,7 +261,72 @@ func (r *run) finalLookup(name string) {
 	res, val, e := r.w.lookup(ctx)
 	ev := event{"ev": "Run", "actor": name, "img": 0, "res": res, "val": val, "err": e}
 	r.obsInto(ev)
-	r.o.emit(ev)
+	r.emit(ev)
+}
+
+func nWorkers() int {
+	if v, err := strconv.Atoi(os.Getenv("BLOCKCOW_WORKERS")); err == nil && v > 0 {
+		return v
+	}
+	return 4
+}
+
+// runBehaviour executes one behaviour in its own run and returns the events.
+func runBehaviour(w *world, bh behaviour) []event {
+	r := &run{w: w, actors: map[string]*actor{}}
+	r.reset(bh.InitImg)
+	r.emit(event{"ev": "TraceStart", "name": bh.Name})
+	e := event{"ev": "Setup", "lay": bh.Lay, "init_img": bh.InitImg}
+	r.obsInto(e)
+	r.emit(e)
+	ok := true
+	for _, s := range bh.Steps {
+		if !r.doStep(s) {
+			ok = false
+			break
+		}
+	}
+	if ok && bh.Final {
+		r.finalLookup("fin")
+	}
+	r.reset(bh.InitImg)
+	return r.events
+}
+
+// parallel runs the behaviours on nWorkers() independent worlds per layout and writes the events in input order.
+func parallel(dir, prefix string, bhs []behaviour, outPath string) {
+	res := make([][]event, len(bhs))
+	n := nWorkers()
+	var wg sync.WaitGroup
+	for k := 0; k < n; k++ {
+		wg.Add(1)
+		go func(k int) {
+			defer wg.Done()
+			worlds := map[[2]int]*world{}
+			for i := k; i < len(bhs); i += n {
+				bh := bhs[i]
+				w := worlds[bh.Lay]
+				if w == nil {
+					var err error
+					w, err = newWorld(filepath.Join(dir, fmt.Sprintf("%s%d%d-%d", prefix, bh.Lay[0], bh.Lay[1], k)), bh.Lay)
+					must(err)
+					worlds[bh.Lay] = w
+				}
+				res[i] = runBehaviour(w, bh)
+			}
+			for _, w := range worlds {
+				w.close()
+			}
+		}(k)
+	}
+	wg.Wait()
+	o := newOut(outPath)
+	defer o.close()
+	for _, evs := range res {
+		for _, e := range evs {
+			o.emit(e)
+		}
+	}
 }
 
 func replay(dir, planPath, outPath string) {
@@ -269,34 +336,7 @@ func replay(dir, planPath, outPath string) {
 	b, err := os.ReadFile(planPath)
 	must(err)
 	must(json.Unmarshal(b, &plan))
-	o := newOut(outPath)
-	defer o.close()
-	worlds := map[[2]int]*world{}
-	for _, bh := range plan.Behaviours {
-		w := worlds[bh.Lay]
-		if w == nil {
-			w, err = newWorld(filepath.Join(dir, fmt.Sprintf("lay%d%d", bh.Lay[0], bh.Lay[1])), bh.Lay)
-			must(err)
-			worlds[bh.Lay] = w
-		}
-		r := &run{w: w, actors: map[string]*actor{}, o: o}
-		r.reset(bh.InitImg)
-		o.emit(event{"ev": "TraceStart", "name": bh.Name})
-		e := event{"ev": "Setup", "lay": bh.Lay, "init_img": bh.InitImg}
-		r.obsInto(e)
-		o.emit(e)
-		ok := true
-		for _, s := range bh.Steps {
-			if !r.doStep(s) {
-				ok = false
-				break
-			}
-		}
-		if ok && bh.Final {
-			r.finalLookup("fin")
-		}
-		r.reset(bh.InitImg)
-	}
+	parallel(dir, "lay", plan.Behaviours, outPath)
 }
 
 // ---------------------------------------------------------------------------------------------
@@ -304,86 +344,103 @@ func replay(dir, planPath, outPath string) {
 // random: seeded random schedules of one or two writers (the second after the first finished or died) and up
 // to three readers, with at most one crash (plain at any gate, torn inside a block write).
 func random(dir string, n int, outPath string) {
-	rng := rand.New(rand.NewSource(seed()))
+	var lays [][2]int
+	for _, l := range [][2]int{{1, 1}, {1, 2}, {2, 2}, {3, 3}, {3, 4}, {4, 4}} {
+		if _, ok := layoutSlot[l]; ok {
+			lays = append(lays, l)
+		}
+	}
+	res := make([][]event, n)
+	nw := nWorkers()
+	var wg sync.WaitGroup
+	for wk := 0; wk < nw; wk++ {
+		wg.Add(1)
+		go func(wk int) {
+			defer wg.Done()
+			worlds := map[[2]int]*world{}
+			for k := wk; k < n; k += nw {
+				rng := rand.New(rand.NewSource(seed()*1000003 + int64(k)))
+				lay := lays[rng.Intn(len(lays))]
+				w := worlds[lay]
+				if w == nil {
+					var err error
+					w, err = newWorld(filepath.Join(dir, fmt.Sprintf("rnd%d%d-%d", lay[0], lay[1], wk)), lay)
+					must(err)
+					worlds[lay] = w
+				}
+				res[k] = randomOne(w, rng, fmt.Sprintf("rnd-s%d-%d-lay%d%d", seed(), k, lay[0], lay[1]))
+			}
+			for _, w := range worlds {
+				w.close()
+			}
+		}(wk)
+	}
+	wg.Wait()
 	o := newOut(outPath)
 	defer o.close()
-	var lays [][2]int
-	for l := range layoutSlot {
-		lays = append(lays, l)
-	}
-	// deterministic order
-	for i := range lays {
-		for j := i + 1; j < len(lays); j++ {
-			if lays[j][0]*10+lays[j][1] < lays[i][0]*10+lays[i][1] {
-				lays[i], lays[j] = lays[j], lays[i]
-			}
+	for _, evs := range res {
+		for _, e := range evs {
+			o.emit(e)
 		}
 	}
-	worlds := map[[2]int]*world{}
-	for k := 0; k < n; k++ {
-		lay := lays[rng.Intn(len(lays))]
-		w := worlds[lay]
-		if w == nil {
-			var err error
-			w, err = newWorld(filepath.Join(dir, fmt.Sprintf("rnd%d%d", lay[0], lay[1])), lay)
-			must(err)
-			worlds[lay] = w
-		}
-		r := &run{w: w, actors: map[string]*actor{}, o: o}
-		r.reset(1)
-		o.emit(event{"ev": "TraceStart", "name": fmt.Sprintf("rnd-%d-lay%d%d", k, lay[0], lay[1])})
-		e := event{"ev": "Setup", "lay": lay, "init_img": 1}
-		r.obsInto(e)
-		o.emit(e)
-		nReaders := 1 + rng.Intn(3)
-		names := []string{"w1"}
-		for i := 1; i <= nReaders; i++ {
-			names = append(names, fmt.Sprintf("r%d", i))
-		}
-		twoWriters := rng.Intn(2) == 0
-		crashed := false
-		crashBias := rng.Intn(4) // 0: never crash
-		for steps := 0; steps < 200; steps++ {
-			var cand []string
-			for _, nm := range names {
-				a := r.actor(nm)
-				if !a.dead && a.at != "done" {
-					cand = append(cand, nm)
-				}
-			}
-			w1 := r.actor("w1")
-			if twoWriters && (w1.dead || w1.at == "done") {
-				a := r.actor("w2")
-				if !a.dead && a.at != "done" {
-					cand = append(cand, "w2")
-				}
-			}
-			if len(cand) == 0 {
-				break
-			}
-			nm := cand[rng.Intn(len(cand))]
+}
+
+func randomOne(w *world, rng *rand.Rand, name string) []event {
+	r := &run{w: w, actors: map[string]*actor{}}
+	r.reset(1)
+	r.emit(event{"ev": "TraceStart", "name": name})
+	e := event{"ev": "Setup", "lay": w.lay, "init_img": 1}
+	r.obsInto(e)
+	r.emit(e)
+	nReaders := 1 + rng.Intn(3)
+	names := []string{"w1"}
+	for i := 1; i <= nReaders; i++ {
+		names = append(names, fmt.Sprintf("r%d", i))
+	}
+	twoWriters := rng.Intn(2) == 0
+	crashed := false
+	crashBias := rng.Intn(4) // 0: never crash
+	for steps := 0; steps < 200; steps++ {
+		var cand []string
+		for _, nm := range names {
 			a := r.actor(nm)
-			s := step{A: nm, C: "adv", Op: "update"}
-			if nm == "w1" {
-				s.Img = 2
-			} else if nm == "w2" {
-				s.Img = 3
-			}
-			canDie := a.started && (nm[0] == 'w' || a.at == "pre_write")
-			if !crashed && crashBias > 0 && canDie && rng.Intn(6) == 0 {
-				s.C = "crash"
-				s.Kind = "plain"
-				if a.at == "pre_write" && rng.Intn(4) != 0 {
-					s.Kind = "torn"
-					s.P = 1 + rng.Intn(3)
-				}
-				crashed = true
-			}
-			if !r.doStep(s) {
-				break
+			if !a.dead && a.at != "done" {
+				cand = append(cand, nm)
 			}
 		}
-		r.finalLookup("fin")
-		r.reset(1)
+		w1 := r.actor("w1")
+		if twoWriters && (w1.dead || w1.at == "done") {
+			a := r.actor("w2")
+			if !a.dead && a.at != "done" {
+				cand = append(cand, "w2")
+			}
+		}
+		if len(cand) == 0 {
+			break
+		}
+		nm := cand[rng.Intn(len(cand))]
+		a := r.actor(nm)
+		s := step{A: nm, C: "adv", Op: "update"}
+		if nm == "w1" {
+			s.Img = 2
+		} else if nm == "w2" {
+			s.Img = 3
+		}
+		canDie := a.started && (nm[0] == 'w' || a.at == "pre_write")
+		if !crashed && crashBias > 0 && canDie && rng.Intn(6) == 0 {
+			s.C = "crash"
+			s.Kind = "plain"
+			if a.at == "pre_write" && rng.Intn(4) != 0 {
+				s.Kind = "torn"
+				s.P = 1 + rng.Intn(3)
+			}
+			crashed = true
+		}
+		if !r.doStep(s) {
+			break
+		}
 	}
+	r.finalLookup("fin")
+	r.reset(1)
+	return r.events
 }
